@@ -227,11 +227,11 @@ theorem fill_journal_linear (j : Nat) (f : FSys) (h : FReach j f) :
   | false => rfl
   | true => have := fill_half_entry_is_end h1 hi n hx; omega
 
-/-- **fill_entry_reads_complete** — no client ever reads a journal entry file between its
+/-- **fill_no_empty_entry_read** — no client ever reads a journal entry file between its
     exclusive create and its filling: readers trust HEAD, and HEAD is written only after the entry
     is complete.  (This is the theorem a reader that probes past HEAD — `Exists(HEAD+1)` — breaks:
     it would take the created-but-empty entry for a committed "no change".) -/
-theorem fill_entry_reads_complete' (j : Nat) (f : FSys) (h : FReach j f) (c n : Nat) (ev : Ev)
+theorem fill_no_empty_entry_read (j : Nat) (f : FSys) (h : FReach j f) (c n : Nat) (ev : Ev)
     (hev : (f.a.step c).2 = some ev) (hop : ev.op = .get) (hpath : ev.path = .ent j n) :
     f.half (.ent j n) = false :=
   fill_entry_reads_complete h.inv.1 h.inv.2 c n ev hev hop hpath
